@@ -35,13 +35,13 @@ SNorm(x) == LET g == Gcd(Gcd(Gcd(Gcd(Abs(x[1]),Abs(x[2])),Abs(x[3])),Abs(x[4])),
             IN IF g <= 1 THEN x ELSE <<x[1] \div g, x[2] \div g, x[3] \div g, x[4] \div g, x[5] \div g>>
 
 SIsZero(x) == x[1] = 0 /\ x[2] = 0 /\ x[3] = 0 /\ x[4] = 0
-SEq(x,y) == /\ x[1]*y[5] = y[1]*x[5] /\ x[2]*y[5] = y[2]*x[5]
-            /\ x[3]*y[5] = y[3]*x[5] /\ x[4]*y[5] = y[4]*x[5]
+SEq(x,y) == IF x[5] = y[5] THEN x[1] = y[1] /\ x[2] = y[2] /\ x[3] = y[3] /\ x[4] = y[4]
+            ELSE SNorm(x) = SNorm(y)          \* the gcd-normalised form is unique (no cross products: no overflow)
 SNeg(x) == <<-x[1],-x[2],-x[3],-x[4],x[5]>>
 SAdd(x,y) == IF SIsZero(x) THEN y ELSE IF SIsZero(y) THEN x ELSE
              IF x[5] = y[5] THEN <<x[1]+y[1],x[2]+y[2],x[3]+y[3],x[4]+y[4],x[5]>>
-             ELSE SNorm(<<x[1]*y[5]+y[1]*x[5], x[2]*y[5]+y[2]*x[5],
-                          x[3]*y[5]+y[3]*x[5], x[4]*y[5]+y[4]*x[5], x[5]*y[5]>>)
+             ELSE LET g == Gcd(x[5],y[5])  fx == y[5] \div g  fy == x[5] \div g IN      \* least common denominator
+                  SNorm(<<x[1]*fx+y[1]*fy, x[2]*fx+y[2]*fy, x[3]*fx+y[3]*fy, x[4]*fx+y[4]*fy, x[5]*fx>>)
 SSub(x,y) == SAdd(x,SNeg(y))
 SMulRaw(x,y) ==
              << x[1]*y[1] - x[2]*y[4] - x[3]*y[3] - x[4]*y[2],
